@@ -16,7 +16,7 @@
    Definitions only.  File:line references are under /repo/include/unifex.
    (Calc/TraitsDefs.v holds the unary/binary instances: one value signature, one error type, two
    children; the n = 1 / n = 2 instances of the mirrors below coincide with them, see
-   TraitsMultiProofs.v [*_agrees_binary].) *)
+   TraitsMultiProofs.v [*_agrees_binary].  [cap_never] is defined there.) *)
 From Coq Require Import List Bool Arith.
 From V Require Import Calc.TraitsDefs.
 Import ListNotations.
@@ -106,8 +106,7 @@ Definition tr_when_all_asfound (l : list traits) : option traits :=
               t_sends_done := true;
               t_affine := forallb t_affine l |}
   end.
-Definition cap_never (m last_started : bk) : bk :=
-  if bk_eqb m BNever && negb (bk_eqb last_started BNever) then BMaybe else m.
+(* [cap_never m last_started] (Calc/TraitsDefs.v) = if m = never and last_started <> never then maybe else m *)
 Definition tr_when_all (l : list traits) : option traits :=
   match l with
   | [] => None
@@ -131,7 +130,10 @@ Definition rt_when_all (l : list traits) : option bk := option_map t_blocking (t
      REPAIRED (now in the header)     m = max(source, trigger); (m == never && trigger != never) ? maybe : m   [tr_stop_when]
    stop_when.hpp:397-405  the run-time customisation (spelled tag_t<unifex::blocking>, so it IS used)
    computes the same formula over the children's run-time answers. *)
-Definition tr_stop_when_asfound (src trg : traits) : traits := CalcTraits.tr_stop_when src trg.
+Definition tr_stop_when_asfound (src trg : traits) : traits :=
+  {| t_blocking := bk_max (t_blocking src) (t_blocking trg);
+     t_sends_done := true;
+     t_affine := t_affine src && t_affine trg |}.
 Definition tr_stop_when (src trg : traits) : traits :=
   {| t_blocking := cap_never (bk_max (t_blocking src) (t_blocking trg)) (t_blocking trg);
      t_sends_done := true;
